@@ -54,12 +54,14 @@ func newGen(rng *rand.Rand, p profile) func(h *histRun, i int) *hop {
 	g.sort = pick(rng, p.sorts)
 	shared := rng.Float64() < p.pShareIdent
 	seeded := rng.Intn(5) == 0
+	keyed := rng.Intn(6) == 0 // all replicas of this history seal their links with one key
 	for r := 0; r < g.nReps; r++ {
 		id := identNames[r%len(identNames)]
 		if shared && r > 0 && rng.Intn(2) == 0 {
 			id = identNames[0]
 		}
 		o := hop{Kind: "new", LogID: "L", Ident: id, Sort: g.sort}
+		o.Keyed = keyed
 		if seeded && rng.Intn(3) > 0 {
 			// opened with a clock of its own: small, around 2^53 (where float64 has gaps), wall-clock nanoseconds, 2^62
 			o.Clock = pick(rng, []int{7, 41, 1<<53 - 2, 1 << 53, 1<<53 + 1, 1700000000000000001, 1 << 62}) + rng.Intn(3)
@@ -70,10 +72,10 @@ func newGen(rng *rand.Rand, p profile) func(h *histRun, i int) *hop {
 		g.setup = append(g.setup, o)
 	}
 	if rng.Float64() < p.pOtherID {
-		g.setup = append(g.setup, hop{Kind: "new", LogID: "M", Ident: pick(rng, identNames), Sort: g.sort})
+		g.setup = append(g.setup, hop{Kind: "new", LogID: "M", Ident: pick(rng, identNames), Sort: g.sort, Keyed: keyed})
 	}
 	if rng.Float64() < p.pEmptyRep {
-		g.setup = append(g.setup, hop{Kind: "new", LogID: "L", Ident: pick(rng, identNames), Sort: g.sort})
+		g.setup = append(g.setup, hop{Kind: "new", LogID: "L", Ident: pick(rng, identNames), Sort: g.sort, Keyed: keyed})
 	}
 	if rng.Float64() < p.pWide {
 		// wide, unbalanced fork: replica 0 gets a long chain, k others one entry each, a collector
@@ -82,7 +84,7 @@ func newGen(rng *rand.Rand, p profile) func(h *histRun, i int) *hop {
 		k := 4 + rng.Intn(6)
 		g.nReps = k + 2
 		for r := 0; r < g.nReps; r++ {
-			g.setup = append(g.setup, hop{Kind: "new", LogID: "L", Ident: identNames[r%len(identNames)], Sort: g.sort})
+			g.setup = append(g.setup, hop{Kind: "new", LogID: "L", Ident: identNames[r%len(identNames)], Sort: g.sort, Keyed: keyed})
 		}
 		for n, ln := 0, 6+rng.Intn(10); n < ln; n++ {
 			g.setup = append(g.setup, hop{Kind: "append", R: 0, Payload: fmt.Sprintf("c%d", n), PC: pick(rng, p.pcs)})
@@ -387,6 +389,7 @@ func runLogProp(cfg logRunCfg) func(seed int64, tier string, outDir string) *res
 		shapes := map[string]bool{}
 		perKey := map[string]int{}
 		totOps, totEntries, withTies, withForks, bounded, denied, panics, iters, faulted := 0, 0, 0, 0, 0, 0, 0, 0, 0
+		keyedHist, seededHist := 0, 0
 		opKinds := map[string]int{}
 		for _, g := range gens {
 			h := &histRun{gen: g, w: newWorld()}
@@ -428,6 +431,18 @@ func runLogProp(cfg logRunCfg) func(seed int64, tier string, outDir string) *res
 				withForks++
 			}
 			bounded += h.boundedJoins
+			for _, o := range h.ops {
+				if o.Kind == "new" && o.Keyed {
+					keyedHist++
+					break
+				}
+			}
+			for _, o := range h.ops {
+				if o.Kind == "new" && o.Clock != 0 {
+					seededHist++
+					break
+				}
+			}
 			denied += h.denied
 			faulted += h.faulted
 			panics += h.panics
@@ -501,6 +516,8 @@ func runLogProp(cfg logRunCfg) func(seed int64, tier string, outDir string) *res
 		res.Stats["histories_with_id_time_ties"] = withTies
 		res.Stats["histories_with_forks"] = withForks
 		res.Stats["bounded_joins"] = bounded
+		res.Stats["histories_with_sealed_links"] = keyedHist
+		res.Stats["histories_with_seeded_clocks"] = seededHist
 		res.Stats["denied_appends"] = denied
 		res.Stats["operations_during_store_outage"] = faulted
 		res.Stats["panics_observed"] = panics
